@@ -1,16 +1,15 @@
 SPECIFICATION MCSpec
 CONSTANTS
   F = {"b", "c"}
-  MaxRec = 2
-  MaxEp = 1
+  MaxRec = 4
+  MaxEp = 2
   FetchMax = 1
   SlowTimeouts = TRUE
   ZombieSteals = FALSE
-  MaxTick = 0
-  MaxSlow = 0
-  MaxIdleT = 1
+  MaxTick = 2
+  MaxSlow = 1
+  MaxIdleT = 2
   MaxKill = 0
-  TrackLast = FALSE
-INVARIANTS Inv
-PROPERTIES StepsOK
+  TrackLast = TRUE
+
 CHECK_DEADLOCK FALSE
